@@ -576,7 +576,7 @@ def leg_m_durations(V, wd, tier):
 def leg_unbounded_durations(V, wd):
     """The window-count formulas for ALL positive durations and windows (Apalache, symbolic integers); NotStrict is a false formula that
     must be refuted (vacuity control)."""
-    detail, done = tlc.apalache("DurationsInt", [("Lemma1", True), ("Lemma2", True), ("NotStrict", False)], wd, timeout=600)
+    detail, done = tlc.apalache("DurationsInt", [("Lemma1", True), ("Lemma2", True), ("NotStrict", False)], wd, timeout=240)
     V.leg("unbounded", tool="apalache-mc 0.58", module="DurationsInt", obligations=3, discharged=done, detail=detail,
           checker_cmd="apalache-mc check --inv=Lemma1|Lemma2|NotStrict --length=0 DurationsInt.tla")
     V.cov["obligations"] = 3
